@@ -1,4 +1,5 @@
 import OrsoVerif.Generated.Distogram
+import OrsoVerif.Generated.DistogramExpr
 /-!
 # C13 — the streaming histogram of `orso/profiler/distogram/__init__.py`
 
@@ -15,17 +16,23 @@ field for the theorems, at `Float` and core `Rat` for the executable driver):
   every run; its equality with the reference is compared, not proved (see `design_notes/C13.md`).
 
 Counts live in `K` as well (Python: ints; exact in `Float` below 2^53).
+
+The *arithmetic* (centroid and count of a merge in `_trim` and in `_trim_in_place`, bulk-load
+midpoint, `load`'s cached difference, the in-place search) is not written here: it is
+`Gen.DistogramExpr.*`, regenerated from the source's AST on every run; this file is the skeleton.
 -/
 namespace Distogram
+open Gen.DistogramExpr (trimCentre trimCount inPlaceCentre inPlaceCount bulkMid loadDiff searchDiff1 searchDiff2
+  searchPickLeft searchInPlace)
 
 variable {K : Type} [Add K] [Sub K] [Mul K] [Div K] [LT K] [LE K]
   [DecidableLT K] [DecidableLE K] [OfNat K 0] [OfNat K 1] [OfNat K 2]
 
 /-- Python `a == b` on numbers, through the order (no `DecidableEq Float`). -/
-def eqK (a b : K) : Bool := decide (a ≤ b) && decide (b ≤ a)
+def eqK (a b : K) : Bool := Gen.DistogramExpr.eqK a b
 
-/-- `(v1 * f1 + v2 * f2) / (f1 + f2)`, distogram/__init__.py:215 and :229-231. -/
-def centroid (v1 f1 v2 f2 : K) : K := (v1 * f1 + v2 * f2) / (f1 + f2)
+/-- The merged centre of `_trim` (`(v1 * f1 + v2 * f2) / (f1 + f2)` in the source as it is now). -/
+def centroid (v1 f1 v2 f2 : K) : K := trimCentre v1 f1 v2 f2
 
 /-! ## Stage 1: the reference algorithm -/
 
@@ -53,7 +60,7 @@ def argminFirst : List K → Nat
 
 /-- Merge bins `i` and `i+1` into their weighted centroid. -/
 def mergeAt : Nat → List (K × K) → List (K × K)
-  | 0, (v1, f1) :: (v2, f2) :: rest => (centroid v1 f1 v2 f2, f1 + f2) :: rest
+  | 0, (v1, f1) :: (v2, f2) :: rest => (centroid v1 f1 v2 f2, trimCount v1 f1 v2 f2) :: rest
   | n + 1, b :: rest => b :: mergeAt n rest
   | _, l => l
 
@@ -115,7 +122,7 @@ def bulkRef (s : RState K) (pairs : List (K × K)) (lo hi : K) : RState K :=
 
 /-- Midpoints of consecutive histogram edges, `(e[i] + e[i+1]) / 2` (:102, as repaired). -/
 def midpoints : List K → List K
-  | a :: b :: rest => (a + b) / 2 :: midpoints (b :: rest)
+  | a :: b :: rest => bulkMid a b :: midpoints (b :: rest)
   | _ => []
 
 /-- `load(**h.dump())`: bins and bounds are kept, the limit becomes the module default. -/
@@ -164,6 +171,12 @@ def ltMinDiff (x : K) (m : Option K) : Bool :=
   | none => true
   | some y => decide (x < y)
 
+/-- `diff < h.min_diff` of `_search_in_place_index` (generated test), `none` is +∞. -/
+def closerThanMin (x : K) (m : Option K) : Bool :=
+  match m with
+  | none => true
+  | some y => searchInPlace x y
+
 /-- `x == h.min_diff` where `none` is +∞. -/
 def eqMinDiff (x : K) (m : Option K) : Bool :=
   match m with
@@ -180,67 +193,81 @@ below the tuple `(value, 1)` — `v < value or (v == value and f < 1)`. -/
 def bisectLeft (value : K) (bins : List (K × K)) : Nat :=
   (bins.takeWhile (fun b => decide (b.1 < value) || (eqK b.1 value && decide (b.2 < 1)))).length
 
-/-- `_update_diffs(h, i)` (:180-203). `IndexError` when the cache is shorter than the code assumes. -/
+/-- One block of `_update_diffs` (:184-190 and :192-198) on `(diffs, min_diff, update_min)`: compare the
+old entry with `min_diff`, store the new gap, lower `min_diff` if the new gap is smaller.
+`IndexError` when the cache is shorter than the code assumes. -/
+def pointUpdate (st : List K × Option K × Bool) (j : Nat) (nd : K) : Except String (List K × Option K × Bool) :=
+  match st.1[j]? with
+  | some old =>
+    .ok (st.1.set j nd, (if ltMinDiff nd st.2.1 then some nd else st.2.1), st.2.2 || eqMinDiff old st.2.1)
+  | none => .error "IndexError"
+
+/-- One `if` block of `_update_diffs`: when it runs it rewrites cache position `j` with the gap between
+bins `j` and `j + 1`. -/
+def diffBlock (bins : List (K × K)) (st : List K × Option K × Bool) (c : Bool) (j : Nat) :
+    Except String (List K × Option K × Bool) :=
+  if c then
+    match bins[j + 1]?, bins[j]? with
+    | some bn, some bi => pointUpdate st j (bn.1 - bi.1)
+    | _, _ => .error "IndexError"
+  else .ok st
+
+/-- `if update_min is True: h.min_diff = min(h.diffs)` (:200-201). -/
+def finishMin (st : List K × Option K × Bool) : Except String (Option K) :=
+  if st.2.2 then
+    match listMin st.1 with
+    | some m => .ok (some m)
+    | none => .error "ValueError"
+  else .ok st.2.1
+
+/-- `_update_diffs(h, i)` (:180-203): the gap left of bin `i` (if `i > 0`: cache position `i - 1`), the gap
+right of it (if it is not the last bin: position `i`), then a full recomputation of `min_diff` when an
+entry equal to it was overwritten. -/
 def updateDiffs (h : Hist K) (i : Nat) : Except String (Hist K) :=
   match h.diffs with
   | none => .ok h
-  | some d0 => do
-    let mut d := d0
-    let mut md := h.minDiff
-    let mut upd := false
-    if 0 < i then
-      match d[i - 1]?, h.bins[i]?, h.bins[i - 1]? with
-      | some old, some bi, some bp =>
-        if eqMinDiff old md then upd := true
-        let nd := bi.1 - bp.1
-        d := d.set (i - 1) nd
-        if ltMinDiff nd md then md := some nd
-      | _, _, _ => throw "IndexError"
-    if i + 1 < h.bins.length then
-      match d[i]?, h.bins[i + 1]?, h.bins[i]? with
-      | some old, some bn, some bi =>
-        if eqMinDiff old md then upd := true
-        let nd := bn.1 - bi.1
-        d := d.set i nd
-        if ltMinDiff nd md then md := some nd
-      | _, _, _ => throw "IndexError"
-    if upd then
-      match listMin d with
-      | some m => md := some m
-      | none => throw "ValueError"
-    return { h with diffs := some d, minDiff := md }
+  | some d0 =>
+    (diffBlock h.bins (d0, h.minDiff, false) (decide (0 < i)) (i - 1)).bind fun s1 =>
+    (diffBlock h.bins s1 (decide (i + 1 < h.bins.length)) i).bind fun s2 =>
+    (finishMin s2).bind fun md =>
+    .ok { h with diffs := some s2.1, minDiff := md }
 
-/-- `_trim(h)` (:206-223); `fuel` bounds the `while` loop (one bin disappears per turn). -/
+/-- The pair `_trim` merges (:211-215): the first position holding `min_diff` in the cache, or — without a
+cache — the first smallest adjacent difference. -/
+def trimIndex (h : Hist K) : Except String Nat :=
+  match h.diffs with
+  | some d =>
+    match h.minDiff with
+    | some md =>
+      match indexOf md d with
+      | some i => .ok i
+      | none => .error "ValueError"
+    | none => .error "ValueError"
+  | none =>
+    match gaps h.bins with
+    | [] => .error "ValueError"
+    | g => .ok (argminFirst g)
+
+/-- One turn of the `while` loop of `_trim` (:211-224). -/
+def trimStep (h : Hist K) : Except String (Hist K) :=
+  (trimIndex h).bind fun i =>
+  match h.bins[i]?, h.bins[i + 1]? with
+  | some (v1, f1), some (v2, f2) =>
+    let bins := (h.bins.eraseIdx (i + 1)).set i (trimCentre v1 f1 v2 f2, trimCount v1 f1 v2 f2)
+    match h.diffs with
+    | some d =>
+      if d.length ≤ i then .error "IndexError" else
+      (updateDiffs { h with bins := bins, diffs := some (d.eraseIdx i) } i).bind fun h1 =>
+      match h1.diffs.bind listMin with
+      | some m => .ok { h1 with minDiff := some m }
+      | none => .error "ValueError"
+    | none => .ok { h with bins := bins }
+  | _, _ => .error "IndexError"
+
+/-- `_trim(h)` (:209-226); `fuel` bounds the `while` loop (one bin disappears per turn). -/
 def trim : Nat → Hist K → Except String (Hist K)
   | 0, h => .ok h
-  | fuel + 1, h =>
-    if h.cap < h.bins.length then do
-      let i ←
-        match h.diffs with
-        | some d =>
-          match h.minDiff with
-          | some md =>
-            match indexOf md d with
-            | some i => pure i
-            | none => throw "ValueError"
-          | none => throw "ValueError"
-        | none =>
-          match gaps h.bins with
-          | [] => throw "ValueError"
-          | g => pure (argminFirst g)
-      match h.bins[i]?, h.bins[i + 1]? with
-      | some (v1, f1), some (v2, f2) =>
-        let bins := (h.bins.eraseIdx (i + 1)).set i (centroid v1 f1 v2 f2, f1 + f2)
-        match h.diffs with
-        | some d =>
-          if d.length ≤ i then throw "IndexError"
-          let h1 ← updateDiffs { h with bins := bins, diffs := some (d.eraseIdx i) } i
-          match h1.diffs.bind listMin with
-          | some m => trim fuel { h1 with minDiff := some m }
-          | none => throw "ValueError"
-        | none => trim fuel { h with bins := bins }
-      | _, _ => throw "IndexError"
-    else .ok h
+  | fuel + 1, h => if h.cap < h.bins.length then (trimStep h).bind (trim fuel) else .ok h
 
 /-- `_compute_diffs(h)` (:240-244). -/
 def computeDiffs (h : Hist K) : Except String (Hist K) :=
@@ -249,92 +276,123 @@ def computeDiffs (h : Hist K) : Except String (Hist K) :=
   | some m => .ok { h with diffs := some d, minDiff := some m }
   | none => .error "ValueError"
 
-/-- `update(h, value, count)` (:262-317). -/
-def update (h : Hist K) (value count : K) : Except String (Hist K) := do
-  if count ≤ 0 then throw "ValueError"
-  let n := h.bins.length
-  -- Python's `index`: `neg` stands for `index = -1`; `idx` is the position it denotes
-  let (neg, idx) : Bool × Nat :=
-    match h.bins.head?, h.bins.getLast? with
-    | some b0, some bl =>
-      if value ≤ b0.1 then (false, 0)
-      else if bl.1 ≤ value then (true, n - 1)
-      else (false, bisectLeft value h.bins)
-    | _, _ => (false, 0)
-  if 0 < n then
-    match h.bins[idx]? with
-    | some (vi, fi) =>
-      if eqK vi value then
-        -- exact hit (:290-293): bounds and cache untouched
-        return { h with bins := h.bins.set idx (vi, fi + count) }
-    | none => throw "IndexError"
-  let mut h := h
-  if !neg && 0 < idx && h.cap ≤ n then
-    -- `_search_in_place_index` (:248-259)
-    if h.diffs.isNone then h ← computeDiffs h
-    match h.bins[idx - 1]?, h.bins[idx]? with
-    | some bp, some bi =>
-      let diff1 := value - bp.1
-      let diff2 := bi.1 - value
-      let (ib, diff) := if diff1 < diff2 then (idx - 1, diff1) else (idx, diff2)
-      -- `in_place_index > 0` (:297): bin 0 is never updated in place
-      if ltMinDiff diff h.minDiff && 0 < ib then
-        -- `_trim_in_place` (:226-237)
-        match h.bins[ib]? with
-        | some (cv, cf) =>
-          let h1 := { h with bins := h.bins.set ib (centroid cv cf value count, cf + count) }
-          return ← updateDiffs h1 ib
-        | none => throw "IndexError"
-    | _, _ => throw "IndexError"
+/-- Python's `index` in `update` (:281-288): `(true, n - 1)` stands for `index = -1`. -/
+def locate (bins : List (K × K)) (value : K) : Bool × Nat :=
+  match bins.head?, bins.getLast? with
+  | some b0, some bl =>
+    if value ≤ b0.1 then (false, 0)
+    else if bl.1 ≤ value then (true, bins.length - 1)
+    else (false, bisectLeft value bins)
+  | _, _ => (false, 0)
+
+/-- `_search_in_place_index` (:250-262) once `diffs` exist: the bin to update in place, if any
+(`none` = Python's `-1`). -/
+def searchInPlaceIndex (h : Hist K) (value : K) (idx : Nat) : Except String (Option Nat) :=
+  match h.bins[idx - 1]?, h.bins[idx]? with
+  | some bp, some bi =>
+    let diff1 := searchDiff1 value bp.1 bi.1
+    let diff2 := searchDiff2 value bp.1 bi.1
+    let (ib, diff) := if searchPickLeft diff1 diff2 then (idx - 1, diff1) else (idx, diff2)
+    .ok (if closerThanMin diff h.minDiff then some ib else none)
+  | _, _ => .error "IndexError"
+
+/-- `_trim_in_place` (:229-240). -/
+def trimInPlace (h : Hist K) (value count : K) (ib : Nat) : Except String (Hist K) :=
+  match h.bins[ib]? with
+  | some (cv, cf) =>
+    updateDiffs { h with bins := h.bins.set ib (inPlaceCentre cv cf value count, inPlaceCount cv cf value count) } ib
+  | none => .error "IndexError"
+
+/-- The insertion of `update` (:301-311) with its cache bookkeeping. -/
+def insertBin (h : Hist K) (neg : Bool) (idx : Nat) (value count : K) : Except String (Hist K) :=
   if neg then
-    let bins := h.bins ++ [(value, count)]
     match h.diffs, h.bins.getLast? with
     | some d, some bl =>
       let diff := value - bl.1
-      h := { h with bins := bins, diffs := some (d ++ [diff]),
-                    minDiff := some (match h.minDiff with
-                                     | none => diff
-                                     | some m => if diff < m then diff else m) }
-    | _, _ => h := { h with bins := bins }
+      .ok { h with bins := h.bins ++ [(value, count)], diffs := some (d ++ [diff]),
+                   minDiff := some (match h.minDiff with
+                                    | none => diff
+                                    | some m => if diff < m then diff else m) }
+    | _, _ => .ok { h with bins := h.bins ++ [(value, count)] }
   else
-    let bins := h.bins.take idx ++ (value, count) :: h.bins.drop idx
     match h.diffs with
     | some d =>
-      h ← updateDiffs { h with bins := bins, diffs := some (d.take idx ++ (0 : K) :: d.drop idx) } idx
-    | none => h := { h with bins := bins }
-  let mn := match h.min with
-    | none => value
-    | some m => if value < m then value else m
-  let mx := match h.max with
-    | none => value
-    | some m => if m < value then value else m
-  trim h.bins.length { h with min := some mn, max := some mx }
+      updateDiffs { h with bins := h.bins.insertIdx idx (value, count), diffs := some (d.insertIdx idx (0 : K)) } idx
+    | none => .ok { h with bins := h.bins.insertIdx idx (value, count) }
+
+/-- `h.min` / `h.max` after an insertion (:313-316). -/
+def bumpBounds (h : Hist K) (value : K) : Hist K :=
+  { h with min := some (match h.min with
+                        | none => value
+                        | some m => if value < m then value else m),
+           max := some (match h.max with
+                        | none => value
+                        | some m => if m < value then value else m) }
+
+/-- insert (:301-311), bounds (:313-316), `_trim` (:318) -/
+def insertTrim (h : Hist K) (neg : Bool) (idx : Nat) (value count : K) : Except String (Hist K) :=
+  (insertBin h neg idx value count).bind fun h2 =>
+  trim (bumpBounds h2 value).bins.length (bumpBounds h2 value)
+
+/-- everything after the exact-hit test: the in-place shortcut (:295-299), else insert + trim -/
+def afterHit (h : Hist K) (neg : Bool) (idx : Nat) (value count : K) : Except String (Hist K) :=
+  if !neg && decide (0 < idx) && decide (h.cap ≤ h.bins.length) then
+    (if h.diffs.isNone then computeDiffs h else .ok h).bind fun h1 =>
+    (searchInPlaceIndex h1 value idx).bind fun r =>
+    match r with
+    | some ib =>
+      -- `in_place_index > 0` (:297): bin 0 is never updated in place
+      if 0 < ib then trimInPlace h1 value count ib else insertTrim h1 neg idx value count
+    | none => insertTrim h1 neg idx value count
+  else insertTrim h neg idx value count
+
+/-- `update(h, value, count)` (:265-320). -/
+def update (h : Hist K) (value count : K) : Except String (Hist K) :=
+  if count ≤ 0 then .error "ValueError" else
+  -- exact hit (:290-293): bounds and cache untouched
+  match (if 0 < h.bins.length then h.bins[(locate h.bins value).2]? else none) with
+  | some (vi, fi) =>
+    if eqK vi value then .ok { h with bins := h.bins.set (locate h.bins value).2 (vi, fi + count) }
+    else afterHit h (locate h.bins value).1 (locate h.bins value).2 value count
+  | none =>
+    if 0 < h.bins.length then .error "IndexError"
+    else afterHit h (locate h.bins value).1 (locate h.bins value).2 value count
 
 /-- The bare `merge(h1, h2)` (:320-341): `h1` is updated with every bin of `h2`. -/
 def merge (h : Hist K) (other : List (K × K)) : Except String (Hist K) :=
   other.foldlM (fun acc b => update acc b.1 b.2) h
 
 /-- `Distogram.__add__` (:77-82), as repaired: an empty right operand adds nothing. -/
-def add (h t : Hist K) : Except String (Hist K) := do
-  let m ← merge h t.bins
+def add (h t : Hist K) : Except String (Hist K) :=
+  (merge h t.bins).bind fun m =>
   match m.min, m.max, t.min, t.max with
   | some a, some b, some c, some d =>
-    return { m with min := some (if c < a then c else a), max := some (if b < d then d else b) }
-  | _, _, none, _ => return m
-  | _, _, _, _ => throw "TypeError"
+    .ok { m with min := some (if c < a then c else a), max := some (if b < d then d else b) }
+  | _, _, none, _ => .ok m
+  | _, _, _, _ => .error "TypeError"
 
 /-- `bulkload` (:84-113) after numpy: pairs with a positive count are inserted, then the bounds
 are widened to the data's. -/
-def bulk (h : Hist K) (pairs : List (K × K)) (lo hi : K) : Except String (Hist K) := do
-  let m ← (pairs.filter (fun p => decide (0 < p.2))).foldlM (fun acc b => update acc b.1 b.2) h
+def bulk (h : Hist K) (pairs : List (K × K)) (lo hi : K) : Except String (Hist K) :=
+  ((pairs.filter (fun p => decide (0 < p.2))).foldlM (fun acc b => update acc b.1 b.2) h).bind fun m =>
   match m.min, m.max with
   | some a, some b =>
-    return { m with min := some (if lo < a then lo else a), max := some (if b < hi then hi else b) }
-  | _, _ => return { m with min := some lo, max := some hi }
+    .ok { m with min := some (if lo < a then lo else a), max := some (if b < hi then hi else b) }
+  | _, _ => .ok { m with min := some lo, max := some hi }
 
-/-- `load(bins, minimum, maximum)` (:129-144), as repaired: `diffs[i] = bins[i+1] - bins[i]`. -/
+/-- `load(bins, minimum, maximum)` (:132-147); the cached difference is the generated `loadDiff`. -/
+def loadDiffsFrom (prev : K) : List (K × K) → List K
+  | a :: b :: rest => loadDiff prev a.1 b.1 :: loadDiffsFrom a.1 (b :: rest)
+  | _ => []
+
+/-- the loop of `load`: `i` runs over `range(len(bins) - 1)`; `bins[i - 1]` at `i = 0` is the last bin. -/
+def loadDiffs (bins : List (K × K)) : List K :=
+  match bins.getLast? with
+  | some bl => loadDiffsFrom bl.1 bins
+  | none => []
+
 def load (bins : List (K × K)) (mn mx : Option K) : Hist K :=
-  let d := gaps bins
+  let d := loadDiffs bins
   { bins := bins, min := mn, max := mx, diffs := some d, minDiff := listMin d,
     cap := Gen.Distogram.binCount }
 
